@@ -162,3 +162,29 @@ def m_nom_extend_into(ex, n, a, f):
 def m_nom_needed_new(ex, n, a, f):
     rt = ret_ty(f)
     return Adt(rt, ex.p.variant_index(rt, 'Unknown'), [])
+
+
+# ---- &[u8] tags (nom::number::complete::double / recognize_float compare the text with byte-string keywords)
+def _bytes_of(ex, v):
+    s = ex.deref(v) if isinstance(v, Ref) else v
+    if isinstance(s, SliceRef):
+        return [c.v for c in s.cells]
+    if isinstance(s, Arr):
+        return [c.v if isinstance(c, Cell) else c for c in s.cells]
+    if isinstance(s, (StrRef, StringV)):
+        return list(s.chars)
+    raise Unsupported(f"nom &[u8] model on {s!r}"[:100])
+
+
+@model(r"^<&\[u8\] as nom::(traits::)?Input>::input_len$")
+def m_nom_bytes_input_len(ex, n, a, f):
+    return len(_bytes_of(ex, a[0]))
+
+
+@model(r"^<&str as nom::(traits::)?Compare<&\[u8\]>>::(compare|compare_no_case)$")
+def m_nom_compare_bytes(ex, n, a, f):
+    s = _src(ex, a[0]).chars
+    t = _bytes_of(ex, a[1])
+    if any(isinstance(c, int) and c >= 128 for c in t):
+        raise Unsupported('non-ASCII byte tag')
+    return _compare(ex, ret_ty(f), s, t, n.endswith('no_case'))
